@@ -1,4 +1,5 @@
 import Kdf.Model.Sys
+import Kdf.Model.RCache
 /-! Line protocol for stream `sys` (C09).  See harness/s_sys.c for the twin.
 
 ```
@@ -12,11 +13,21 @@ rcaps <mask>                                answer of the read_caps callback
 nosys <0|1>                                 pass a NULL system
 meth <slot> nometh | linear <t> <off> | pgt <fmt> <t> <root_as> <root_addr> <pte_mask> <f0,f1,..>
           | lookup <t> <endoff> [<o:d,...>] | memarr <t> <base_as> <base_addr> <shift> <elemsz> <valsz>
+          | custom <t> <mask> <arm-if-(addr&mask)!=0> <arm-else>      arm: f:<as>:<off> (callback finishes the translation,
+                                                                      remain=0) | s:<as>:<off> (one linear level left) | e:<status>
 map <idx> none | <endoff:meth,...>          ->  > map <idx> none | <endoff:meth,...>
 op <caps> <as> <addr> <cbstatus>            ->  > op <status> calls=<n> [<as> <addr>]
 conv <target_as> <as> <addr>                ->  > conv <status> <as> <addr>
 chains                                      ->  > chains ...   (the model's chain tables; driver only)
+newctx                                      fresh translation context (cold read cache); so do mem/ovr/bad/null/clr/newsys
+reent off | <as> <pfn:addr,...>             re-entrant get-page callback: before it delivers page <pfn> (of any address space)
+                                            it reads the 64-bit object at <as>:<addr> through the same context
+rd <as> <addr>                              ->  > rd <status> [<value>] gp=<callbacks started> nest=<deepest nesting> mru=<slot order>
+                                                  slots=<as:addr:size:ptr;...>     one 64-bit read through the context
+                                                  (model: Kdf.Model.RCache = get_cache_buf of ctx.c)
 ```
+While a `reent` table is in force `op`/`conv` are outside the model of `addrxlat_op` (its memory is a pure function): the
+driver answers `?` and forgets the cache state (`rd` then answers UNSYNC until the next fresh context).
 The harness appends ` | depth=… pages=… left=…` (measured, not modelled) to op/conv lines.
 -/
 namespace Driver.Sys
@@ -30,7 +41,7 @@ structure MemCfg where
   or1 : Nat := 0
   be : Bool := false
   ovr : List (Nat × Nat × Nat) := []
-  bad : List (Nat × Nat × XStatus) := []       -- (as, page, status); null pages answer nodata
+  bad : List (Nat × Nat × XStatus × Bool) := []   -- (as, page, status, null?); null pages (OK without data) answer nodata
 
 def mix (seed as a4 : Nat) : Nat :=
   let m := 2^64
@@ -50,8 +61,8 @@ def cell (c : MemCfg) (as a4 : Nat) : Nat :=
 /-- `do_read32`/`do_read64` over the harness's `get_page` -/
 def pmOf (c : MemCfg) : Mem := fun as addr size =>
   if as ≥ 3 then .error .nodata
-  else match c.bad.find? (fun (s, p, _) => s = as ∧ p = addr / 4096 * 4096) with
-  | some (_, _, st) => .error st
+  else match c.bad.find? (fun (s, p, _, _) => s = as ∧ p = addr / 4096 * 4096) with
+  | some (_, _, st, _) => .error st
   | none =>
     if size = 4 then
       if addr % 4 ≠ 0 then .error .unaligned else .ok (cell c as addr)
@@ -90,6 +101,34 @@ structure St where
   sys : Sys := ⟨List.replicate 5 none, List.replicate 16 .nometh⟩
   rcaps : Nat := 0
   nosys : Bool := false
+  cache : Option Kdf.Model.RCache.RCache := some Kdf.Model.RCache.init    -- `none`: not tracked (after op/conv)
+  reentAs : Nat := 0
+  reent : List (Nat × Nat) := []                                           -- (pfn, address read first)
+
+/-- the harness's get-page callback as the cache model sees it -/
+def cbOf (s : St) : Kdf.Model.RCache.Cb :=
+  { readCaps := s.rcaps
+    pre := fun a =>
+      if a.as ≥ 3 then none
+      else match s.reent.find? (fun (p, _) => p = a.addr / 4096) with
+        | some (_, e) => some ⟨e, s.reentAs⟩
+        | none => none
+    res := fun a =>
+      if a.as ≥ 3 then .fail .nodata
+      else match s.mem.bad.find? (fun (x, p, _, _) => x = a.as ∧ p = a.addr / 4096 * 4096) with
+        | some (_, _, _, true) => .noptr
+        | some (_, _, st, false) => .fail st
+        | none => .data }
+
+def armOf (w : String) : CustomArm :=
+  match w.splitOn ":" with
+  | ["f", as, off] => .finish (if as = "-1" then 3 else as.toNat!) off.toNat!
+  | ["s", as, off] => .step (if as = "-1" then 3 else as.toNat!) off.toNat!
+  | ["e", st] => .fail (statusOf st)
+  | _ => .fail .nometh
+
+def showSlots (c : Kdf.Model.RCache.RCache) : String :=
+  ";".intercalate (c.slots.map fun sl => s!"{showAs sl.addr.as}:{sl.addr.addr}:{sl.size}:{if sl.ptr then 1 else 0}")
 
 def cfgOf (s : St) : Cfg := ⟨if s.nosys then none else some s.sys, s.rcaps, pmOf s.mem⟩
 
@@ -106,7 +145,23 @@ def showChains : String :=
                    one "kphys2direct" .kphys2direct, one "kphys2any" .kphys2any,
                    one "machphys2direct" .machphys2direct,
                    "expect=" ++ ",".intercalate ((List.range 5).map fun i => toString (mapExpectAs i)),
-                   s!"max_inflight={MAX_INFLIGHT}"]
+                   s!"max_inflight={MAX_INFLIGHT}",
+                   s!"read_cache_slots={Kdf.Model.RCache.READ_CACHE_SLOTS}",
+                   s!"max_read_nesting={Kdf.Model.RCache.MAX_READ_NESTING}"]
+
+/-- `op` / `conv` through the model of `addrxlat_op` -/
+def opLine (s : St) (ws : List String) : String :=
+  match ws with
+  | ["op", caps, as, addr, cbst] =>
+    match opTop (cfgOf s) caps.toNat! ⟨addr.toNat!, asOf as⟩ with
+    | .call fa => s!"> op {showStatus (statusOf cbst)} calls=1 {showAs fa.as} {fa.addr}"
+    | .fail e => s!"> op {showStatus e} calls=0"
+    | .oob => "> op OOB"
+  | ["conv", tas, as, addr] =>
+    match conv (cfgOf s) (asOf tas) ⟨addr.toNat!, asOf as⟩ with
+    | some (st, fa) => s!"> conv {showStatus st} {showAs fa.as} {fa.addr}"
+    | none => "> conv OOB"
+  | _ => "> bad-op"
 
 partial def loop (h : IO.FS.Stream) (s : St) : IO Unit := do
   let line ← h.getLine
@@ -114,13 +169,44 @@ partial def loop (h : IO.FS.Stream) (s : St) : IO Unit := do
   let ws := (line.trimAscii.toString.splitOn " ").filter (· ≠ "")
   match ws with
   | ["mem", seed, a0, o0, a1, o1, be] =>
-    loop h { s with mem := { s.mem with seed := seed.toNat!, and0 := a0.toNat!, or0 := o0.toNat!,
+    loop h { s with cache := some Kdf.Model.RCache.init,
+                    mem := { s.mem with seed := seed.toNat!, and0 := a0.toNat!, or0 := o0.toNat!,
                                         and1 := a1.toNat!, or1 := o1.toNat!, be := be == "1" } }
-  | ["ovr", as, a4, v] => loop h { s with mem := { s.mem with ovr := (as.toNat!, a4.toNat!, v.toNat!) :: s.mem.ovr } }
-  | ["bad", as, pg, st] => loop h { s with mem := { s.mem with bad := (as.toNat!, pg.toNat!, statusOf st) :: s.mem.bad } }
-  | ["null", as, pg] => loop h { s with mem := { s.mem with bad := (as.toNat!, pg.toNat!, .nodata) :: s.mem.bad } }
-  | ["clr"] => loop h { s with mem := { s.mem with ovr := [], bad := [] } }
-  | ["newsys"] => loop h { s with sys := ⟨List.replicate 5 none, List.replicate 16 .nometh⟩, nosys := false }
+  | ["ovr", as, a4, v] =>
+    loop h { s with cache := some Kdf.Model.RCache.init, mem := { s.mem with ovr := (as.toNat!, a4.toNat!, v.toNat!) :: s.mem.ovr } }
+  | ["bad", as, pg, st] =>
+    loop h { s with cache := some Kdf.Model.RCache.init,
+                    mem := { s.mem with bad := (as.toNat!, pg.toNat!, statusOf st, false) :: s.mem.bad } }
+  | ["null", as, pg] =>
+    loop h { s with cache := some Kdf.Model.RCache.init,
+                    mem := { s.mem with bad := (as.toNat!, pg.toNat!, .nodata, true) :: s.mem.bad } }
+  | ["clr"] => loop h { s with cache := some Kdf.Model.RCache.init, reent := [], mem := { s.mem with ovr := [], bad := [] } }
+  | ["newsys"] =>
+    loop h { s with cache := some Kdf.Model.RCache.init, sys := ⟨List.replicate 5 none, List.replicate 16 .nometh⟩, nosys := false }
+  | ["newctx"] => loop h { s with cache := some Kdf.Model.RCache.init }
+  | ["reent", "off"] => loop h { s with reent := [] }
+  | ["reent", as, tbl] =>
+    let es := (tbl.splitOn ",").filter (· ≠ "") |>.map fun e =>
+      match e.splitOn ":" with | [p, a] => (p.toNat!, a.toNat!) | _ => (0, 0)
+    loop h { s with reentAs := as.toNat!, reent := es }
+  | ["rd", as, addr] =>
+    let a : FullAddr := ⟨addr.toNat!, asOf as⟩
+    match s.cache with
+    | none => IO.println "> rd UNSYNC"; loop h s
+    | some c =>
+      if !Kdf.Model.RCache.capsHas s.rcaps a.as then
+        -- `read64` goes through `internal_op` without a translation system
+        IO.println s!"> rd nometh gp=0 nest=0 mru={",".intercalate (c.order.map toString)} slots={showSlots c}"
+        loop h s
+      else
+        let o := Kdf.Model.RCache.read (cbOf s) c a
+        let v := match o.res with
+          | .ok _ => (match pmOf s.mem a.as a.addr 8 with | .ok v => s!" {v}" | .error _ => " ?")
+          | .error _ => ""
+        IO.println s!"> rd {showStatus o.status}{v} gp={o.calls} nest={o.depth} mru={",".intercalate (o.cache.order.map toString)} slots={showSlots o.cache}"
+        loop h { s with cache := some o.cache }
+  | ["meth", slot, "custom", t, mask, hit, miss] =>
+    loop h (setMeth s slot (.custom (asOf t) mask.toNat! (armOf hit) (armOf miss)))
   | ["rcaps", m] => loop h { s with rcaps := m.toNat! }
   | ["nosys", b] => loop h { s with nosys := b == "1" }
   | ["meth", slot, "pgt", fmt, t, ras, raddr, mask, fields] =>
@@ -142,18 +228,9 @@ partial def loop (h : IO.FS.Stream) (s : St) : IO Unit := do
       match e.splitOn ":" with | [eo, me] => ⟨eo.toNat!, intOf me⟩ | _ => ⟨0, -1⟩
     IO.println s!"> map {idx} {showMap m}"
     loop h { s with sys := { s.sys with maps := s.sys.maps.set idx.toNat! (some m) } }
-  | ["op", caps, as, addr, cbst] =>
-    let r := opTop (cfgOf s) caps.toNat! ⟨addr.toNat!, asOf as⟩
-    match r with
-    | .call fa => IO.println s!"> op {showStatus (statusOf cbst)} calls=1 {showAs fa.as} {fa.addr}"
-    | .fail e => IO.println s!"> op {showStatus e} calls=0"
-    | .oob => IO.println "> op OOB"
-    loop h s
-  | ["conv", tas, as, addr] =>
-    match conv (cfgOf s) (asOf tas) ⟨addr.toNat!, asOf as⟩ with
-    | some (st, fa) => IO.println s!"> conv {showStatus st} {showAs fa.as} {fa.addr}"
-    | none => IO.println "> conv OOB"
-    loop h s
+  | ["op", _, _, _, _] | ["conv", _, _, _] =>
+    if !s.reent.isEmpty then IO.println s!"> {ws.headD ""} ?" else IO.println (opLine s ws)
+    loop h { s with cache := none }
   | ["chains"] => IO.println ("> chains " ++ showChains); loop h s
   | _ => IO.println "> bad-op"; loop h s
 
